@@ -65,3 +65,31 @@ func VerifC10Wrappers() {
 	_, e3 := l.Accept()
 	zzverif.Assert(e3 != nil, "C10.listener.closed-after-drain")
 }
+
+// VerifC16WrapperCloseRace: both ends of a bridged pair drop at the same moment: two goroutines
+// close the same wrapper concurrently (every interleaving within the preemption bound). The
+// wrapped transport is closed once and the close callback - which for websocket connections is
+// close(notifyCh) and would panic the process when run twice - runs exactly once.
+func VerifC16WrapperCloseRace() {
+	zzverif.SetPreempt(zzverif.Param("preempt", 1))
+	under := &c10Conn{}
+	notify := make(chan struct{})
+	cb := 0
+	var w net.Conn
+	stats := zzverif.Bool("statsConn")
+	if stats {
+		w = WrapStatsConn(under, func(r, wr int64) { cb++ })
+	} else {
+		w = WrapCloseNotifyConn(under, func() { cb++; close(notify) })
+	}
+	done := 0
+	for i := 0; i < 2; i++ {
+		go func() { _ = w.Close(); done++ }()
+	}
+	_ = w.Close()
+	zzverif.Quiesce()
+	zzverif.Assert(done == 2, "C16.wraprace.every-close-returns")
+	zzverif.Assert(cb == 1, "C16.wraprace.callback-exactly-once")
+	zzverif.Assert(under.closed == 1, "C16.wraprace.transport-closed-exactly-once")
+	zzverif.Reach("C16.wraprace.done")
+}
